@@ -895,6 +895,9 @@ pub fn mutate_tokens(rng: &mut Rng, src: &str, n: usize) -> String {
 /// declarations, `this` forms, destructuring defaults, unary zoo, labelled continue, tagged member
 /// templates, comments between operands, inner directives, redeclarations, import.meta, HTML comments...
 pub const ZOO: &[&str] = &[
+    r####"function z47(a, b) { return a[b].concat.call(a[b], b) + a[b].handler.trim.apply(a, [b]) + a.b[0].c.substring.call(b, 1) + a()[b].trim.call(a); }"####,
+    r####"class Z48 { #name = 'n'; m(a, b) { return this.#name.trim.call(a) + this.#name.concat.apply(a, [b]) + a.#name?.trim(); } static #s(a) { return a.trim.call(a); } }"####,
+    r####"function z49(a, b) { return a?.[b].concat.call(a, b) + (a ?? b)[0].trim.call(b) + new a[b].concat.call(b); }"####,
     r####"function z45(a, b) { return String.raw`C:\users\admin\xfiles and more text` + tag`\unicode and \u{55 and \xerxes is long enough` + a; }"####,
     r####"function z46(a, b) { return trim(a) + a.trim() + concat(a, b) + a.concat(b) + substring(1) + b.substring(1) + replace(a)(b) + slice`x`; }"####,
     r####"function z41(a, b) { return 'abc'?.substring(1) + null?.trim() + /x/g?.replace(a, 'y') + (1)?.toString().concat(a) + (void 0)?.trim(); }"####,
